@@ -63,9 +63,16 @@ func ruleFuncMap(c *Ctx, r *Repo, rule string) {
 		keys = append(keys, k)
 	}
 	sort.Strings(keys)
+	funcs := pkgFuncs(p)
 	for _, k := range keys {
 		e := fm[k]
 		pos := r.Pos(e.Pos())
+		// a function of this package named as the entry is read like the equivalent literal
+		if id, ok := ast.Unparen(e).(*ast.Ident); ok && wrappers[k] {
+			if fn, ok := info.Uses[id].(*types.Func); ok && funcs[fn] != nil && funcs[fn].Recv == nil {
+				e = &ast.FuncLit{Type: funcs[fn].Type, Body: funcs[fn].Body}
+			}
+		}
 		switch x := e.(type) {
 		case *ast.FuncLit:
 			if !wrappers[k] {
@@ -403,6 +410,20 @@ func ruleRunes(c *Ctx, r *Repo) {
 				if q.Ret[0] == "strings.ToUpper(ARG0)" {
 					// the upper-cased input itself, when it was found in the initialism list
 					if v, has := q.atom("slices.Contains(golintInitialisms, strings.ToUpper(ARG0))"); has && v {
+						continue
+					}
+				}
+				const idx = "slices.Index(golintInitialisms, strings.ToUpper(ARG0))"
+				if q.Ret[0] == "golintInitialisms["+idx+"]" {
+					// the list element found equal to the upper-cased input
+					found := false
+					for _, a := range q.Atoms {
+						switch {
+						case a.Expr == idx+" >= 0" && a.Val, a.Expr == idx+" < 0" && !a.Val, a.Expr == idx+" == -1" && !a.Val:
+							found = true
+						}
+					}
+					if found {
 						continue
 					}
 				}
